@@ -76,3 +76,8 @@ package lexer
 //@   ensures[C03 eof] at(l, tok.Offset) == 0 ==> tok.Type == EOF
 //@   ensures[C03 same-input] l.input == old(l.input)
 //@   modifies l.pos, l.cur, l.line, l.col
+
+// IsIdent only inspects its argument.
+//@ func IsIdent(s string) (r bool)
+//@   noverify used by callers in package evaluator (keyRepr); the body is a read-only scan of s
+//@   modifies nothing
